@@ -165,3 +165,11 @@ def body2_monotone():
                             out['mono_%d_%d%d_%d%d' % (i, a0, a1, b0, b1)] = implies(
                                 ghost_pred('c13y_body2', i, a0, a1), ghost_pred('c13y_body2', i, b0, b1))
     return out
+
+
+class AssertProbe(SeedProbe):
+    """SeedProbe that does not descend into the test expression (`_visit_expr` only fills `by_expr`, which the
+    identity `_len_size` of the probe does not read): `_visit_assert` is the inherited, unmodified method"""
+
+    def _visit_expr(self, expr, ctx):
+        return None
